@@ -318,7 +318,7 @@ class RIBFamily:
             p = ctx.run_vh(args)
             if p.returncode != 0:
                 crash = vlib.gribigo_panic(p.stderr)
-                if crash and self.prop in ("C12", "C11", "C10"):
+                if crash and self.prop in ("C12", "C11", "C10", "C13", "C14"):
                     raise vlib.Crash(crash)
                 raise Infra(f"vh {self.VH_CMD} failed: " + p.stdout[-2000:] + p.stderr[-4000:])
             part = json.loads(p.stdout.strip().splitlines()[-1])
